@@ -33,7 +33,7 @@ def debug_guarded_blocks(ctx, body):
     """Blocks transitively control-dependent on the true edge of a test of settings.print_debug_info."""
     v = Vals(body)
     guarded = set()
-    tcd = cfg.transitive_control_deps(body)
+    tcd = cfg.transitive_control_deps(body, acyclic=True)
     flag_edges = set()
     for bi, b in enumerate(body.blocks):
         t = b["term"]
